@@ -115,4 +115,300 @@ theorem pyValidate_raised_src_atomic (t : TraitType) (v : Val) (e : Exc) (hs : t
     | (exfalso; apply ‹_ = Exc.typeError → False›; apply dictFind_err; assumption)
     | skip
 
+
+variable (E)
+
+def SrcP (t : TraitType) : Prop :=
+  (∀ d v e x, descOf E t = some d → x ∈ d.entries → altAlone E x v = .raised e → Src E e) ∧
+  (∀ v e, ctraitValidate E t v = .raised e → Src E e) ∧
+  (∀ v e, pyValidate E t v = .raised e → Src E e)
+
+def SrcQ (ts : List TraitType) : Prop :=
+  (∀ v e x, x ∈ flatFast E ts → altAlone E x v = .raised e → Src E e) ∧
+  (∀ v e want, pySel E want ts v = .raised e → Src E e) ∧
+  (∀ v e, unionFirst E ts v = .raised e → Src E e) ∧
+  (∀ vs e, ctraitValidateL E ts vs = .error (some e) → Src E e)
+
+theorem descOf_leaf_not_tuple (t : TraitType) (d : Desc) (hs : t.subs = none)
+    (hd : descOf E t = some d) : ∀ items, d ≠ .tuple items := by
+  intro items hdt; subst hdt
+  cases t <;> simp [TraitType.subs] at hs <;> simp [descOf] at hd
+  case «instance» cls an mode dflt => split at hd <;> (try split at hd) <;> simp at hd
+  case instanceH cls an => split at hd <;> simp at hd
+
+theorem srcP_atomic (t : TraitType) (hs : t.subs = none) (hn : t.isNoFast = false) : SrcP E t := by
+  have s3 : ∀ v e, pyValidate E t v = .raised e → Src E e :=
+    fun v e h => pyValidate_raised_src_atomic t v e hs hn h
+  have sfast : ∀ d v e, descOf E t = some d → fastAlone E d v = .raised e → Src E e :=
+    fun d v e hd h => fastAlone_raised_src d v e (descOf_leaf_shape E t d hs hd)
+      (descOf_leaf_not_tuple E t d hs hd) h
+  refine ⟨?_, ?_, s3⟩
+  · intro d v e x hd hx h
+    have ha := descOf_leaf_shape E t d hs hd
+    have hx' : x = d := by
+      cases d <;> simp [Desc.isAlt] at ha <;> simpa [Desc.entries] using hx
+    subst hx'
+    rw [altAlone_of_isAlt E x v ha] at h
+    exact sfast x v e hd h
+  · intro v e h
+    cases hd : descOf E t with
+    | some d => exact sfast d v e hd (by simpa [ctraitValidate, ctraitValidateWith, hd] using h)
+    | none =>
+      by_cases hp : hasPy t = true
+      · exact s3 v e (by simpa [ctraitValidate, ctraitValidateWith, hd, hp] using h)
+      · simp [ctraitValidate, ctraitValidateWith, hd, hp] at h
+
+theorem srcP_noFast (t : TraitType) (hP : SrcP E t) : SrcP E (.noFast t) := by
+  obtain ⟨_, _, s3⟩ := hP
+  refine ⟨?_, ?_, ?_⟩
+  · intro d v e x hd; simp [descOf] at hd
+  · intro v e h
+    by_cases hp : hasPy t = true
+    · exact s3 v e (by simpa [ctraitValidate, ctraitValidateWith, descOf, hasPy, hp, pyValidate] using h)
+    · simp [ctraitValidate, ctraitValidateWith, descOf, hasPy, hp] at h
+  · intro v e h; exact s3 v e (by simpa [pyValidate] using h)
+
+theorem srcQ_nil : SrcQ E [] := by
+  refine ⟨?_, ?_, ?_, ?_⟩
+  · intro v e x hx; simp [flatFast] at hx
+  · intro v e want h; simp [pySel] at h
+  · intro v e h; simp [unionFirst] at h
+  · intro vs e h; simp [ctraitValidateL] at h
+
+theorem srcQ_cons (t : TraitType) (ts : List TraitType) (hP : SrcP E t) (hQ : SrcQ E ts) :
+    SrcQ E (t :: ts) := by
+  obtain ⟨s1, s2, s3⟩ := hP
+  obtain ⟨r1, r2, r3, r4⟩ := hQ
+  refine ⟨?_, ?_, ?_, ?_⟩
+  · intro v e x hx h
+    rw [flatFast_cons, List.mem_append] at hx
+    rcases hx with hx | hx
+    · cases hd : descOf E t with
+      | none => simp [hd] at hx
+      | some d => simp only [hd] at hx; exact s1 d v e x hd hx h
+    · exact r1 v e x hx h
+  · intro v e want h
+    simp only [pySel] at h
+    split at h
+    · cases hpy : pyValidate E t v with
+      | traitError => simp only [hpy] at h; exact r2 v e want h
+      | raised e' => simp [hpy] at h; subst h; exact s3 v e' hpy
+      | ok x => simp [hpy] at h
+    · exact r2 v e want h
+  · intro v e h
+    simp only [unionFirst] at h
+    have hct : ctraitValidateWith E (descOf E t) (hasPy t) (fun x => pyValidate E t x) v = ctraitValidate E t v := rfl
+    rw [hct] at h
+    cases hr : ctraitValidate E t v with
+    | traitError => simp only [hr] at h; exact r3 v e h
+    | raised e' => simp [hr] at h; subst h; exact s2 v e' hr
+    | ok x => simp [hr] at h
+  · intro vs e h
+    cases vs with
+    | nil => simp [ctraitValidateL] at h
+    | cons b bs =>
+      simp only [ctraitValidateL] at h
+      have hct : ctraitValidateWith E (descOf E t) (hasPy t) (fun x => pyValidate E t x) b = ctraitValidate E t b := rfl
+      rw [hct] at h
+      cases hr : ctraitValidate E t b with
+      | traitError => simp [hr] at h
+      | raised e' => simp [hr] at h; subst h; exact s2 b e' hr
+      | ok a =>
+        simp only [hr] at h
+        cases hrest : ctraitValidateL E ts bs with
+        | error x => simp [hrest] at h; subst h; exact r4 bs e hrest
+        | ok as => simp [hrest] at h
+
+
+theorem firstAccept_raised_mem (rs : List Res) (e : Exc) (h : firstAccept rs = .raised e) :
+    Res.raised e ∈ rs := by
+  induction rs with
+  | nil => simp [firstAccept] at h
+  | cons r rs ih =>
+    cases r with
+    | traitError => simp [firstAccept] at h; simp [ih h]
+    | ok w => simp [firstAccept] at h
+    | raised e' => simp [firstAccept] at h; simp [h]
+
+theorem tuple_fast_raised (items : List TraitType) (v : Val) (e : Exc)
+    (h : fastAlone E (.tuple (ctraitDescL E items)) v = .raised e) :
+    ∃ vs, ctraitValidateL E items vs = .error (some e) := by
+  simp only [fastAlone] at h
+  rcases v with a | ⟨sub, vs⟩ | vs
+  · simp [tupleCheckWith] at h
+  · simp only [tupleCheckWith, ctraitDescL_length, tupleItems_ctrait] at h
+    by_cases hl : items.length = vs.length
+    · simp only [hl, if_true] at h
+      cases hr : ctraitValidateL E items vs with
+      | error x =>
+        cases x with
+        | none => simp [hr] at h
+        | some e' => simp [hr] at h; subst h; exact ⟨vs, hr⟩
+      | ok ws =>
+        simp only [hr] at h
+        by_cases hb : Val.beqL ws vs = true <;> simp [hb] at h
+    · simp [hl] at h
+  · simp [tupleCheckWith] at h
+
+theorem srcP_tuple (items : List TraitType) (hQ : SrcQ E items) : SrcP E (.tuple items) := by
+  obtain ⟨_, _, _, r4⟩ := hQ
+  have hd0 : descOf E (.tuple items) = some (.tuple (ctraitDescL E items)) := by simp [descOf]
+  have hfast : ∀ v e, fastAlone E (.tuple (ctraitDescL E items)) v = .raised e → Src E e := by
+    intro v e h
+    obtain ⟨vs, hr⟩ := tuple_fast_raised E items v e h
+    exact r4 vs e hr
+  refine ⟨?_, ?_, ?_⟩
+  · intro d v e x hd hx h
+    rw [hd0] at hd; cases hd
+    simp [Desc.entries] at hx; subst hx
+    exact hfast v e (by simpa [altAlone] using h)
+  · intro v e h
+    exact hfast v e (by simpa [ctraitValidate, ctraitValidateWith, hd0] using h)
+  · intro v e h
+    simp only [pyValidate] at h
+    rcases v with a | ⟨sub, vs⟩ | vs
+    · simp at h
+    · simp only at h
+      split at h
+      · cases hr : ctraitValidateL E items vs with
+        | error x =>
+          cases x with
+          | none => simp [hr] at h
+          | some e' => simp [hr] at h; subst h; exact r4 vs e' hr
+        | ok ws => simp [hr] at h
+      · simp at h
+    · simp at h
+
+theorem srcP_baseTuple (items : List TraitType) : SrcP E (.baseTuple items) := by
+  have hpy : ∀ v e, pyValidate E (.baseTuple items) v ≠ .raised e := by
+    intro v e h
+    simp only [pyValidate] at h
+    rcases v with a | ⟨sub, vs⟩ | vs
+    · simp at h
+    · simp only at h
+      split at h
+      · cases hr : ctraitValidateL E items vs <;> simp [hr] at h
+      · simp at h
+    · simp only at h
+      split at h
+      · cases hr : ctraitValidateL E items vs <;> simp [hr] at h
+      · simp at h
+  refine ⟨?_, ?_, ?_⟩
+  · intro d v e x hd; simp [descOf] at hd
+  · intro v e h
+    exact absurd (by simpa [ctraitValidate, ctraitValidateWith, descOf, hasPy] using h) (hpy v e)
+  · intro v e h; exact absurd h (hpy v e)
+
+theorem srcP_union (alts : List TraitType) (hQ : SrcQ E alts) : SrcP E (.union alts) := by
+  obtain ⟨_, _, r3, _⟩ := hQ
+  refine ⟨?_, ?_, ?_⟩
+  · intro d v e x hd; simp [descOf] at hd
+  · intro v e h
+    exact r3 v e (by simpa [ctraitValidate, ctraitValidateWith, descOf, hasPy, pyValidate] using h)
+  · intro v e h; exact r3 v e (by simpa [pyValidate] using h)
+
+theorem srcP_compound (hE : CastIdem E) (alts : List TraitType) (wn : Bool) (t : TraitType)
+    (hQ : SrcQ E alts)
+    (hpy : ∀ v, pyValidate E t v =
+      match pySel E true alts v with
+      | .traitError =>
+        match (if wn then pyEnumValidate [Val.none] v else Res.traitError) with
+        | .traitError => pySel E false alts v
+        | r => r
+      | r => r)
+    (hdesc : ∀ d, descOf E t = some d →
+      d = .complex (flatFast E alts ++ ((if wn then [Desc.enum [Val.none]] else []) ++
+        (if anySlow E alts then [Desc.slow (fun v => pySel E false alts v)] else []))))
+    (hhp : hasPy t = true) : SrcP E t := by
+  obtain ⟨r1, r2, _, _⟩ := hQ
+  have s1 : ∀ d v e x, descOf E t = some d → x ∈ d.entries → altAlone E x v = .raised e → Src E e := by
+    intro d v e x hd hx h
+    rw [hdesc d hd] at hx
+    simp only [Desc.entries, List.mem_append] at hx
+    rcases hx with hx | hx | hx
+    · exact r1 v e x hx h
+    · cases wn with
+      | false => simp at hx
+      | true =>
+        simp at hx; subst hx
+        simp only [altAlone, fastAlone] at h
+        split at h <;> cases h
+    · by_cases ha : anySlow E alts = true
+      · simp [ha] at hx; subst hx
+        simp only [altAlone] at h
+        exact r2 v e false h
+      · simp [ha] at hx
+  have s3 : ∀ v e, pyValidate E t v = .raised e → Src E e := by
+    intro v e h
+    rw [hpy v] at h
+    cases hsel : pySel E true alts v with
+    | ok x => simp [hsel] at h
+    | raised e' => simp [hsel] at h; subst h; exact r2 v e' true hsel
+    | traitError =>
+      simp only [hsel] at h
+      cases wn with
+      | false => simp at h; exact r2 v e false h
+      | true =>
+        simp only [if_true, pyEnumValidate] at h
+        cases hs : seqContains [Val.none] v with
+        | yes => simp [hs] at h
+        | no => simp [hs] at h; exact r2 v e false h
+        | raises e' => simp [hs] at h; subst h; exact Src.ofContains hs
+  refine ⟨s1, ?_, s3⟩
+  intro v e h
+  cases hd : descOf E t with
+  | none => exact s3 v e (by rw [← ctraitValidate_of_none E t v hd hhp]; exact h)
+  | some d =>
+    have hshape := (agreeP_all E hE t).1 d hd
+    have hfa : ctraitValidate E t v = fastAlone E d v := by
+      simp [ctraitValidate, ctraitValidateWith, hd]
+    rw [hfa] at h
+    rcases hshape with ha | ⟨ds, hds, hent, _⟩
+    · rw [hdesc d hd] at ha; simp [Desc.isAlt] at ha
+    · subst hds
+      simp only [fastAlone] at h
+      rw [fastComplex_first E ds v hent] at h
+      have hmem := firstAccept_raised_mem _ e h
+      obtain ⟨x, hx, hxe⟩ := List.mem_map.mp hmem
+      exact s1 _ v e x hd (by simpa [Desc.entries] using hx) hxe
+
+/-- Every exception other than TraitError that a validator of the model raises
+has a source. -/
+theorem srcP_all (hE : CastIdem E) : ∀ t, SrcP E t :=
+  TraitType.induct' (P := SrcP E) (Q := SrcQ E)
+    (fun t hs hn => srcP_atomic E t hs hn)
+    (fun t ih => srcP_noFast E t ih)
+    (fun t ts hs hQ => by
+      cases t <;> simp [TraitType.subs] at hs
+      case tuple items => subst hs; exact srcP_tuple E items hQ
+      case baseTuple items => exact srcP_baseTuple E items
+      case union alts => subst hs; exact srcP_union E alts hQ
+      case either alts wn =>
+        subst hs
+        exact srcP_compound E hE alts wn _ hQ
+          (fun v => by
+            simp only [pyValidate]
+            cases pySel E true alts v <;> try rfl
+            all_goals (cases wn <;> simp)
+            all_goals (try (cases pyEnumValidate [Val.none] v <;> simp))
+            all_goals (try (cases pySel E false alts v <;> rfl)))
+          (fun d hd => descOf_either_eq E alts wn d hd) rfl
+      case compoundH hs' =>
+        subst hs
+        exact srcP_compound E hE hs' false _ hQ
+          (fun v => by
+            simp only [pyValidate]
+            cases pySel E true hs' v <;> try rfl
+            all_goals (try simp)
+            all_goals (try (cases pySel E false hs' v <;> rfl)))
+          (fun d hd => by
+            simp only [descOf] at hd
+            cases hf : flatFast E hs' with
+            | nil => simp [hf] at hd
+            | cons x xs =>
+              simp only [hf] at hd
+              simp only [Option.some.injEq] at hd
+              simp [← hd]) rfl)
+    (srcQ_nil E) (srcQ_cons E)
+
 end TraitsVerif.Model.Val
